@@ -212,7 +212,7 @@ func genC15(r *core.Rand, run int) *MuxScenario {
 	}
 	sp.ZeroReads = r.Chance(1, 5)
 	sp.EOFData = r.Chance(1, 4)
-	if c.proto == "http" && r.Chance(1, 2) {
+	if (c.proto == "http" || strings.HasPrefix(c.proto, "grpcweb")) && r.Chance(1, 2) {
 		sp.Fault.Err = "ueof" // HTTP/1.1: the broken body reads as io.ErrUnexpectedEOF
 	}
 	if c.codec == "body" {
